@@ -593,13 +593,22 @@ class Fn(object):
         if c is None:
             return None
         c = self.strip(c)
+        full = c
         while True:
             v = self.nodes.get(c, {})
             if v.get('k') == 'BinaryOperator' and v.get('op') in LOGICAL and blk.term != c and \
                     self.strip(blk.term if blk.term is not None else -1) != c:
                 c = self.strip(v['rhs'])
                 continue
-            return c
+            break
+        if c != full:
+            # normally the block of an if/while evaluates only the right-most operand itself (the others have their own
+            # blocks and edges). When the condition creates a temporary, clang joins all operand paths first and branches
+            # on the value of the whole expression in a block of its own: then the edge stands for the whole condition.
+            p = self.pos(c)
+            if p is not None and p[0] != b:
+                return full
+        return c
 
     def guards(self, nid=None, block=None, frm=None):
         """guard set: list of (cond node id, polarity/label, block id) of the CFG edges every path from the
@@ -707,6 +716,22 @@ class Fn(object):
         cut = []
         for k, p in atom_list:
             cut += self.edges_with_atom(k, p)
+        # an edge that stands for a whole condition (a || b && c evaluated as one value, see effective_cond) is guarded
+        # if every alternative under which it is taken contains one of the atoms
+        want = set((k, bool(p)) for k, p in atom_list)
+        for b in self.blocks.values():
+            if b.cond is None or b.tk == 'SwitchStmt' or len(b.succs) != 2:
+                continue
+            c = self.effective_cond(b.id)
+            v = self.nodes.get(c, {})
+            if not (v.get('k') == 'BinaryOperator' and v.get('op') in LOGICAL):
+                continue
+            for j in (0, 1):
+                if b.succs[j] is None or (b.id, j) in cut:
+                    continue
+                dnf = implied(self, c, j == 0)
+                if dnf and all(any((atom_key(self, a)[0], bool(atom_key(self, a)[1])) in want for a in conj) for conj in dnf):
+                    cut.append((b.id, j))
         if not cut:
             return False
         start = self.entry if frm is None else frm
